@@ -779,3 +779,126 @@ Proof.
   - specialize (H []). cbn [fold_left] in H. rewrite H. now rewrite !orb_true_r.
   - apply IH. intros pre. apply (H (e :: pre)).
 Qed.
+
+(* ---------------- an established session depends on nothing but its own bytes ---------------- *)
+Lemma deliver_all_keeps_key pa t : forall ps c key r, k_key c = Some key ->
+  deliver_all pa t c ps = Ok r -> k_key (dres_conn r) = Some key.
+Proof.
+  induction ps as [|p ps IH]; intros c key r Hk H; cbn [deliver_all] in H.
+  - injection H as <-. exact Hk.
+  - destruct (deliver_joined pa t t c p key Hk) as [_ Hkeep].
+    destruct (deliver pa t c p) as [[c' o|c' o]|e|] eqn:Ed; cbn [bind] in H; try discriminate.
+    + pose proof (Hkeep _ eq_refl) as Hc'. cbn [dres_conn] in Hc'.
+      destruct (deliver_all pa t c' ps) as [r2|e|] eqn:E2; cbn [bind] in H; try discriminate.
+      injection H as <-. pose proof (IH c' key r2 Hc' E2) as Hr2. destruct r2; exact Hr2.
+    + injection H as <-. apply (Hkeep _ eq_refl).
+Qed.
+
+Lemma conn_data_keeps_key pa t now c d key r : k_key c = Some key ->
+  conn_data pa t now c d = Ok r -> k_key (dres_conn r) = Some key.
+Proof.
+  intros Hk. unfold conn_data. destruct (parse_chk now (k_ps c) d) as [[[ps' msgs] err]|e|]; cbn [bind]; try discriminate.
+  destruct err. { intros H. injection H as <-. exact Hk. }
+  apply deliver_all_keeps_key. exact Hk.
+Qed.
+
+Definition own (c : N) {A} (x : N * A) : bool := fst x =? c.
+
+(* s1: the full run; s2: the run with only the events of c *)
+Definition Rone (c : N) (s1 s2 : srv808) : Prop :=
+  v_crashed s1 = false /\ v_crashed s2 = false /\
+  cfind c (v_conns s1) = cfind c (v_conns s2) /\
+  (forall k, cfind c (v_conns s1) = Some k -> k_key k <> None) /\
+  filter (own c) (v_log s1) = filter (own c) (v_log s2) /\
+  existsb (N.eqb c) (v_shut s1) = existsb (N.eqb c) (v_shut s2).
+
+Lemma cfind_cset_other {V} c c' (v : V) m : c' <> c -> cfind c' (cset c v m) = cfind c' m.
+Proof.
+  intros Hn. induction m as [|[k v'] t IH]; cbn [cset cfind].
+  - replace (c =? c') with false by lia. reflexivity.
+  - destruct (k =? c) eqn:E; cbn [cfind]; destruct (k =? c') eqn:E2; auto. lia.
+Qed.
+Lemma cfind_cremove_same {V} c (m : list (N * V)) : cfind c (cremove c m) = None.
+Proof.
+  induction m as [|[k v'] t IH]; cbn [cremove cfind]. reflexivity.
+  destruct (k =? c) eqn:E; cbn [cfind]; rewrite ?E; auto.
+Qed.
+
+Lemma filter_own_other c c0 (outs : list wout) l : c0 <> c ->
+  filter (own c) (rev (map (fun o => (c0, o)) outs) ++ l) = filter (own c) l.
+Proof.
+  intros Hn. rewrite filter_app, filter_rev.
+  assert (filter (own c) (map (fun o : wout => (c0, o)) outs) = []) as ->.
+  { induction outs as [|o t IH]; cbn [map filter]. reflexivity.
+    unfold own at 1. cbn [fst]. replace (c0 =? c) with false by lia. exact IH. }
+  reflexivity.
+Qed.
+
+Lemma filter_own_same c (outs : list wout) l l' : filter (own c) l = filter (own c) l' ->
+  filter (own c) (rev (map (fun o => (c, o)) outs) ++ l) = filter (own c) (rev (map (fun o => (c, o)) outs) ++ l').
+Proof. intros H. rewrite !filter_app, H. reflexivity. Qed.
+
+Lemma Rone_other pa c s1 s2 e : ev_conn e <> c -> Rone c s1 s2 -> Rone c (step808 pa s1 e) s2.
+Proof.
+  intros He (H1 & H2 & Hc & Hk & Hl & Hs). pose proof (step808_alive pa s1 e H1) as Ha.
+  split. exact Ha. split. exact H2. revert Ha. unfold step808. rewrite H1.
+  destruct e as [c0|c0 now d|c0]; cbn [ev_conn] in He.
+  - destruct (cfind c0 (v_conns s1)). { intros _. auto 7. }
+    cbn [v_conns v_log v_shut]. intros _. rewrite cfind_cset_other by lia. auto 7.
+  - destruct (cfind c0 (v_conns s1)) as [k|]. 2:{ intros _. auto 7. }
+    destruct d as [|b d]. { intros _. auto 7. }
+    destruct (conn_data pa _ now k (b :: d)) as [[k' outs|k' outs]|err|]; cbn [v_crashed v_conns v_log v_shut];
+      try discriminate; intros _.
+    + rewrite cfind_cset_other by lia. rewrite filter_own_other by exact He. auto 7.
+    + rewrite cfind_cremove_other by lia. rewrite filter_own_other by exact He.
+      cbn [existsb]. replace (c =? c0) with false by lia. auto 7.
+    + auto 7.
+  - cbn [v_conns v_log v_shut]. intros _. rewrite cfind_cremove_other by lia. auto 7.
+Qed.
+
+Lemma Rone_own pa c s1 s2 e : ev_conn e = c -> (match e with Connect _ => False | _ => True end) ->
+  Rone c s1 s2 -> Rone c (step808 pa s1 e) (step808 pa s2 e).
+Proof.
+  intros He Hnc (H1 & H2 & Hc & Hk & Hl & Hs).
+  pose proof (step808_alive pa s1 e H1) as Ha1. pose proof (step808_alive pa s2 e H2) as Ha2.
+  split. exact Ha1. split. exact Ha2. revert Ha1 Ha2. unfold step808. rewrite H1, H2.
+  destruct e as [c0|c0 now d|c0]; cbn [ev_conn] in He; subst c0. contradiction.
+  - rewrite <- Hc. destruct (cfind c (v_conns s1)) as [k|] eqn:Ef.
+    2:{ intros _ _. rewrite Ef. repeat split; auto. }
+    destruct d as [|b d]. { intros _ _. rewrite Ef. repeat split; auto. }
+    assert (k_key k <> None) as Hkk by (apply Hk; reflexivity).
+    rewrite (conn_data_agree pa (taken_by_others c (v_conns s2)) (taken_by_others c (v_conns s1)) now k (b :: d)) by (left; exact Hkk).
+    destruct (conn_data pa _ now k (b :: d)) as [[k' outs|k' outs]|err|] eqn:Ed; cbn [v_crashed v_conns v_log v_shut];
+      try discriminate; intros _ _.
+    + rewrite !cfind_cset_same. repeat split; auto.
+      * intros k0 E0. injection E0 as <-. destruct (k_key k) as [key|] eqn:Ek; [|congruence].
+        pose proof (conn_data_keeps_key pa _ now k (b :: d) key _ Ek Ed) as Hn. cbn [dres_conn] in Hn. congruence.
+      * apply filter_own_same, Hl.
+    + rewrite !cfind_cremove_same. repeat split; auto. discriminate.
+      apply filter_own_same, Hl. cbn [existsb]. now rewrite N.eqb_refl.
+    + rewrite Ef. repeat split; auto.
+  - cbn [v_conns v_log v_shut]. intros _ _. rewrite !cfind_cremove_same. repeat split; auto. discriminate.
+Qed.
+
+Lemma Rone_run pa c : forall evs s1 s2, Rone c s1 s2 -> no_reconnect c evs = true ->
+  Rone c (fold_left (step808 pa) evs s1) (fold_left (step808 pa) (only c evs) s2).
+Proof.
+  induction evs as [|e evs IH]; intros s1 s2 HR Hn; cbn [fold_left only filter]. exact HR.
+  cbn [no_reconnect forallb] in Hn. apply andb_true_iff in Hn. destruct Hn as [Hn1 Hn].
+  destruct (ev_conn e =? c) eqn:E; cbn [fold_left].
+  - apply IH; [|exact Hn]. apply Rone_own. lia. destruct e; auto. cbn [ev_conn] in E. lia. exact HR.
+  - apply IH; [|exact Hn]. apply Rone_other. lia. exact HR.
+Qed.
+
+(* ESTABLISHED SESSIONS: from any state in which connection c has joined the registry, whatever all the
+   other connections do afterwards - any number of them, any bytes, any closes - c is written the same frames
+   and is ended or not exactly as if it were alone *)
+Theorem established_alone pa s evs c : v_crashed s = false -> joined c s = true -> no_reconnect c evs = true ->
+  seen808 c (fold_left (step808 pa) evs s) = seen808 c (fold_left (step808 pa) (only c evs) s).
+Proof.
+  intros Hc Hj Hn.
+  destruct (Rone_run pa c evs s s) as (_ & _ & _ & _ & Hl & Hs); [|exact Hn|].
+  { repeat split; auto. intros k Hk. unfold joined in Hj. rewrite Hk in Hj. destruct (k_key k); congruence. }
+  unfold seen808. rewrite Hs. f_equal.
+  rewrite !filter_rev. f_equal. f_equal. exact Hl.
+Qed.
